@@ -196,11 +196,14 @@ HexValue(ds, acc) == IF ds = <<>> THEN acc ELSE HexValue(Tail(ds), 16 * acc + He
 AllDigits(s) == s # <<>> /\ Len(s) <= 8 /\ \A i \in 1..Len(s) : IsDigit(s[i])
 AllHexDigits(s) == s # <<>> /\ Len(s) <= 6 /\ \A i \in 1..Len(s) : IsHex(s[i])
 
+\* can the bytes from p to the end still become a line?  (no NUL, no bare LF, a CR only as the last byte)
+PartialLineOK(s, p) == \A i \in p..Len(s) : s[i] # 0 /\ s[i] # LF /\ (s[i] = CR => i = Len(s))
+
 RECURSIVE ParseHeaders(_, _, _)
 \* returns [st, hs, p] with p after the blank line
 ParseHeaders(s, p, acc) ==
     LET e == EolFrom(s, p) IN
-    IF e = 0 THEN [st |-> "inc", hs |-> <<>>, p |-> 0]
+    IF e = 0 THEN [st |-> IF PartialLineOK(s, p) THEN "inc" ELSE "bad", hs |-> <<>>, p |-> 0]
     ELSE IF e = p THEN [st |-> "ok", hs |-> acc, p |-> p + 2]
     ELSE LET line == SubSeq(s, p, e - 1)
              c == IndexOf(line, COLON)
@@ -227,7 +230,7 @@ ParseChunks(s, p, acc) ==
 
 ParseOne(s, p) ==
     LET e == EolFrom(s, p) IN
-    IF e = 0 THEN Res("inc", <<>>, 0) ELSE
+    IF e = 0 THEN Res(IF PartialLineOK(s, p) THEN "inc" ELSE "bad", <<>>, 0) ELSE
     LET line == SubSeq(s, p, e - 1)
         i == IndexOf(line, SP)
         j == IF i = 0 THEN 0 ELSE IndexFrom(line, SP, i + 1)
